@@ -308,6 +308,7 @@ impl<'l, T: Debug> OrderedLocalQueue<'l, T> {
         let count = self.local_len() / 2;
         let mut done = 0;
         while done < count {
+            let before = done;
             for entry in self.queue.iter().rev() {
                 if done >= count {
                     break;
@@ -317,13 +318,18 @@ impl<'l, T: Debug> OrderedLocalQueue<'l, T> {
                     done += 1;
                 }
             }
+            if done == before {
+                // siblings have stolen from this queue, nothing left to move
+                break;
+            }
         }
-        // refresh count
-        _ = self
-            .len
-            .fetch_update(Ordering::AcqRel, Ordering::Acquire, |v| {
-                Some(v.saturating_sub(count))
-            });
+        // refresh count, siblings do not update it when they steal
+        let mut actual = 0;
+        for entry in self.queue {
+            let worker = entry.value();
+            actual += worker.capacity() - worker.spare_capacity();
+        }
+        self.len.store(actual, Ordering::Release);
         //直接放到全局队列
         self.shared.push_with_priority(priority, item);
     }
@@ -462,6 +468,8 @@ impl<'l, T: Debug> OrderedLocalQueue<'l, T> {
                 return Some(val);
             }
         }
+        // every worker is empty, siblings may have stolen without updating the count
+        self.len.store(0, Ordering::Release);
         None
     }
 }
